@@ -377,7 +377,11 @@ def run_shard(spec):
                 continue
             counters["position_checks"] = counters.get("position_checks", 0) + 1
             if resource:
-                ok = (rep_q in (q, parsed.encode())) and rep_off == 0 or (rep_q, rep_off) in {(q, 0), (parsed.encode(), 0)}
+                from liquer.parser import Query
+
+                res_prefix = Query(parsed.segments[:1], absolute=parsed.absolute).encode()
+                typed_prefix = q.split("/-/")[0]
+                ok = rep_off == 0 and rep_q in (q, parsed.encode(), res_prefix, typed_prefix)
                 if not ok:
                     viol(case, "position", "reported query/offset do not locate the missing resource", "reported (%r, %r)" % (rep_q, rep_off))
                 continue
